@@ -99,6 +99,9 @@ def spec_from_seed(run_seed, tier):
         for _ in range(rnd.choice([1, 1, 2, 3])):
             faults[str(rnd.randrange(0, 2 * len(calls)))] = rnd.choice(["enoent", "eacces", "eio_open", "read_error@%d" % rnd.choice([0, 5, 40, 300])])
     spec = {"kind": "typing", "prop": "C20", "mols": mols, "calls": calls, "faults": faults}
+    if rnd.random() < 0.03:
+        # process restart: the first molecule typed in fresh interpreters under other string hash seeds
+        spec["restart"] = {"hashseeds": rnd.sample(range(1, 100000), 2)}
     if tier == "thorough" and rnd.random() < 0.25:
         # crash-point enumeration: the same history once per (open call, fault kind); execute() loops over them
         spec["enumerate_faults"] = True
@@ -302,6 +305,20 @@ def _execute_one(spec):
         signal.alarm(0)
         signal.signal(signal.SIGALRM, old)
     stats["opens"] = fs.opens
+    if spec.get("restart") and not viols:
+        from .. import freshproc
+
+        m0 = spec["mols"][0]
+        there = freshproc.restart({"job": "typing", "text": m0["text"], "seeds": [m0["seed"]]}, spec["restart"]["hashseeds"])
+        stats["fault:process_restart"] = len(there)
+        want = json.loads(json.dumps(bases[0]))
+        for hs, r in sorted(there.items()):
+            if "child_failed" in r:
+                return {"harness_error": f"restarted interpreter (PYTHONHASHSEED={hs}) failed: {r['child_failed']}", "violations": []}
+            if "ok" in r and r["ok"][0] != want:
+                viol("differs_from_first_call_baseline", f"typing {m0['text']!r} (seed {m0['seed']}) in a fresh interpreter under PYTHONHASHSEED={hs} "
+                     f"differs from the first call in a pristine process ({_diff(tuple(r['ok'][0]), tuple(want))})", ["process_restart"])
+                break
     sig = hashlib.sha1(json.dumps([spec["mols"], spec["calls"], spec["faults"]], sort_keys=True).encode()).hexdigest()
     fired = sum(v for k, v in stats.items() if k.startswith("fault:"))
     nontrivial = stats["results_compared"] >= 4 and (stats["explicit_file_calls"] >= 1 or fired >= 1)
